@@ -38,6 +38,10 @@ def classify(case, verdict, detail, eng_out):
         return '%s:%s:%s' % (shape, eng_out[1], eng_out[2])
     if verdict == 'DISAGREE:columns-vs-components':
         return '%s:result-columns-differ-from-components:%s' % (shape, ops[-1] if ops else '?')
+    if nested and verdict in ('DISAGREE:value', 'DISAGREE:keys') and len(case.get('meas', [])) == 1 and case.get('max_meas', 0) > 1:
+        # several inner measures, one measure in the statement's result: the transpiler names every inner
+        # measure after that single output measure
+        return 'nested-expression:inner-measures-collapsed-onto-the-single-output-measure'
     if verdict == 'DISAGREE:value':
         last_float = max([i for i, o in enumerate(ops) if o in FLOAT_OPS], default=-1)
         if last_float >= 0 and any(o in CMP_OPS or o in ('filter', 'mod', 'zip_mod', 'ceil', 'floor') for o in ops[last_float + 1:]):
